@@ -373,6 +373,16 @@ impl<'f, T: Elem> State<'f, T> {
                 }
                 unit(kind!(c.bulk(pairs)))
             }
+            Op::BulkVia(a, cow, pairs) => {
+                let c = src!(a);
+                if c.tag() != 'L' {
+                    return BADREG.to_string();
+                }
+                if c.vec_backed() && pairs.iter().any(|(i, _)| *i >= MAX_VECMAP_KEY) {
+                    return BADREG.to_string();
+                }
+                unit(kind!(c.bulk_via(*cow, pairs)))
+            }
             Op::Apply(a) => {
                 let c = src!(a);
                 unit(c.apply())
